@@ -238,6 +238,26 @@ func newEnv(c *Case, faults []Fault) *env {
 			},
 		}))
 	})
+	vm.Set("hostw", func(j int, arg goja.Value) (res goja.Value, err error) {
+		if j < 0 || j >= len(e.c.Host) {
+			return nil, errors.New("no such host op")
+		}
+		defer func() {
+			// hostCall propagates by panic: turn the uncatchable conditions into a returned, wrapped error
+			if p := recover(); p != nil {
+				if pe, ok := p.(error); ok {
+					var ie *goja.InterruptedError
+					var so *goja.StackOverflowError
+					if errors.As(pe, &ie) || errors.As(pe, &so) {
+						res, err = nil, fmt.Errorf("hostw: nested call failed: %w", pe)
+						return
+					}
+				}
+				panic(p)
+			}
+		}()
+		return e.hostCall(j, arg), nil
+	})
 	vm.Set("host", func(call goja.FunctionCall) goja.Value {
 		j := int(call.Argument(0).ToInteger())
 		if j < 0 || j >= len(e.c.Host) {
@@ -395,6 +415,17 @@ func descVal(v goja.Value) string {
 }
 
 func (e *env) descErr(err error, via string) outcome {
+	// an interrupt or stack overflow that a Go function returned wrapped in another error is still that condition
+	// (errors.As is the documented way to find it)
+	if _, direct := err.(*goja.Exception); !direct {
+		var ie *goja.InterruptedError
+		var so *goja.StackOverflowError
+		if errors.As(err, &ie) {
+			err = ie
+		} else if errors.As(err, &so) {
+			err = so
+		}
+	}
 	switch x := err.(type) {
 	case *goja.Exception:
 		v := x.Value()
